@@ -5,7 +5,7 @@
    with and without hints, any schedule, try_lock contention, spurious condition-variable wake-ups, with
    and without elasticity / stealing); the runtime_state constants and the "refusal returns" facts are
    regenerated from the source (Gen/GenRuntimeState.v). *)
-From Coq Require Import List NArith Bool Arith Permutation.
+From Coq Require Import List NArith Bool Arith Permutation Lia.
 From Pika Require Import Base.Conc Gen.GenRuntimeState Model.SuspendResume Proofs.SuspendResumeProofs.
 Import ListNotations.
 
@@ -86,3 +86,44 @@ Example C19_example_end :
   executed g = [((2, 2), 0); ((2, 1), 0); ((2, 0), 1)] /\ st g 0 = rs_running /\ st g 1 = rs_running /\ qs g = [] /\
   calls g = [(2, KResumePU, false); (2, KSuspendPU, false); (3, KSuspendPool, true)].
 Proof. vm_compute. repeat split. Qed.
+
+(* ---- the calls return / nothing is stranded (deadlock freedom) ----
+   [stuck]: no thread is enabled, where a thread spinning in yield_while / blocked on a lock or on the condition
+   variable / polling empty queues counts as not enabled (Model/SuspendResume.v, [enabled]).
+   [api_ok]: processing-unit numbers in the calls are worker numbers of the pool. *)
+Theorem C19_suspend_resume_return : forall c progs sched, (forall t, Forall (api_ok c) (progs t)) ->
+  let cf := sr_run c progs sched in
+  stuck c cf ->
+  forall t, client_done (snd cf t) = true \/ (at_wait_idle (snd cf t) = true /\ live (fst cf) > 0).
+Proof. exact suspend_resume_return. Qed.
+Print Assumptions C19_suspend_resume_return.
+
+(* stuck and every processing unit running again (every suspend followed by a resume): no pending task remains and
+   every submitted task has been executed exactly once *)
+Theorem C19_no_task_stranded : forall c progs sched, (forall t, Forall (api_ok c) (progs t)) ->
+  let cf := sr_run c progs sched in
+  nw c > 0 -> stuck c cf -> (forall w, w < nw c -> st (fst cf) w = rs_running) ->
+  qs (fst cf) = [] /\ heldl (fst cf) = [] /\ Permutation (map fst (executed (fst cf))) (submitted (fst cf)).
+Proof. exact no_task_stranded. Qed.
+Print Assumptions C19_no_task_stranded.
+
+(* with stealing a single running worker suffices, also while the others sleep *)
+Theorem C19_no_task_stranded_stealing : forall c progs sched w0, (forall t, Forall (api_ok c) (progs t)) ->
+  let cf := sr_run c progs sched in
+  stealing c = true -> stuck c cf -> w0 < nw c -> st (fst cf) w0 = rs_running ->
+  qs (fst cf) = [] /\ heldl (fst cf) = [] /\ Permutation (map fst (executed (fst cf))) (submitted (fst cf)).
+Proof. exact no_task_stranded_stealing. Qed.
+Print Assumptions C19_no_task_stranded_stealing.
+
+(* the lock / hand-shake invariant behind the three theorems above, for use by the harness monitors:
+   a PU lock is only ever held by a client inside its critical section; a worker's state is `sleeping`
+   exactly between its store and its wake-up CAS; only a waiting worker can be notified *)
+Theorem C19_handshake_invariant : forall c progs sched, (forall t, Forall (api_ok c) (progs t)) ->
+  INV4 c (fst (sr_run c progs sched)) (snd (sr_run c progs sched)).
+Proof. exact sr_inv4. Qed.
+Print Assumptions C19_handshake_invariant.
+
+(* non-vacuity of [stuck]: the end of the example run is stuck (everything returned, nothing left) *)
+Example C19_example_stuck :
+  forall t, t < 8 -> enabled ex_cfg t (fst (sr_run ex_cfg ex_progs (ex_sched 40))) (snd (sr_run ex_cfg ex_progs (ex_sched 40)) t) = false.
+Proof. intros t H. do 8 (destruct t as [|t]; [vm_compute; reflexivity|]). lia. Qed.
